@@ -1229,7 +1229,9 @@ static ASMJIT_INLINE_CONSTEXPR OperandSignature signature_of(RegType reg_type) n
 
 [[nodiscard]]
 static ASMJIT_INLINE_NODEBUG OperandSignature signature_of_vec_by_size(uint32_t size) noexcept {
-  RegType reg_type = RegType(Support::ctz((size | 0x40u) & 0x0Fu) - 4u + uint32_t(RegType::kVec128));
+  // Returns a signature of the smallest 128-bit, 256-bit, or 512-bit vector register that can hold `size` bytes -
+  // bits 4, 5, and 6 of `size` (16, 32, and 64 bytes) select `RegType::kVec128`, `kVec256`, and `kVec512`.
+  RegType reg_type = RegType(Support::ctz((Support::max<uint32_t>(size, 16u) | 0x40u) & 0x70u) - 4u + uint32_t(RegType::kVec128));
   return signature_of(reg_type);
 }
 
